@@ -89,6 +89,15 @@ func (s *Spec) manifest() map[string]any {
 		cons = append(cons, map[string]any{"platformVersion": map[string]any{"name": "Kubernetes", "range": ">=1.20.0"}})
 	case "unique":
 		cons = append(cons, map[string]any{"uniqueInScope": map[string]any{}})
+	case "os-then-k8s-new": // a constraint for a platform the cluster may not be on, followed by an unmet one
+		cons = append(cons, map[string]any{"platformVersion": map[string]any{"name": "OpenShift", "range": ">=4.12.0"}},
+			map[string]any{"platformVersion": map[string]any{"name": "Kubernetes", "range": ">=1.99.0"}})
+	case "os-then-k8s-ok":
+		cons = append(cons, map[string]any{"platformVersion": map[string]any{"name": "OpenShift", "range": ">=4.12.0"}},
+			map[string]any{"platformVersion": map[string]any{"name": "Kubernetes", "range": ">=1.20.0"}})
+	case "k8s-ok-then-os-new":
+		cons = append(cons, map[string]any{"platformVersion": map[string]any{"name": "Kubernetes", "range": ">=1.20.0"}},
+			map[string]any{"platformVersion": map[string]any{"name": "OpenShift", "range": ">=9.0.0"}})
 	}
 	if s.Defect == "bad-constraint-range" {
 		cons = append(cons, map[string]any{"platformVersion": map[string]any{"name": "Kubernetes", "range": "not a range"}})
